@@ -347,7 +347,9 @@ class SimpleCorrelator(AbstractCorrelator):
                 )
                 if segment_status:
                     segment_status.status[str(seq_num)] = STATUS_EXPIRED
-                    if self.get_cumulated_status(ref_num) == STATUS_EXPIRED:
+                    # This was the last open segment if status is neither SENDING nor SENT.
+                    # Whether the others timed out or were rejected, the message has failed.
+                    if self.get_cumulated_status(ref_num) in (STATUS_EXPIRED, STATUS_FAILED):
                         await self.hook.send_error(
                             segment_status.orig_submit_sm, _EXPIRED_ERROR, self.client_id
                         )
